@@ -988,6 +988,8 @@ class Interp:
             return cur
         if isinstance(cur, set) and isinstance(op, (ast.BitOr, ast.Sub, ast.BitAnd)):
             r = self.binop(op, cur, val)
+            if not isinstance(r, (set, frozenset)):
+                return r            # a concrete (empty) set combined with a symbolic one
             cur.clear()
             cur.update(r)
             return cur
